@@ -574,13 +574,15 @@ func procC19(t *Target, tier string, r *Result) {
 			r.sample(w)
 			if res.Panicked || len(res.errs()) > 0 {
 				r.outcome(tag + "/to-failed")
-				return // totality is C03's claim
+				r.violate("value-not-written", "root", "CopyTo fails for a value of the boundary set: "+res.Panic+diagText(res.errs()), w)
+				return
 			}
 			fresh := t.New()
 			res = t.callFrom(ob, fresh)
 			r.Transitions++
 			if res.Panicked || len(res.errs()) > 0 {
 				r.outcome(tag + "/from-failed")
+				r.violate("value-not-read-back", "root", "CopyFrom of the written value fails: "+res.Panic+diagText(res.errs()), w)
 				return
 			}
 			got := NormS(fresh, excl)
